@@ -384,6 +384,12 @@ func CheckUciHistory(sc *Scenario, out *UciRunOut, res *RunResult) {
 			res.count("position_checks", 1)
 			continue
 		}
+		if pc.AfterSearch {
+			if c05 {
+				res.addViolation("C05", "position_modified", fmt.Sprintf("after a search the engine holds %q, before it held %q", pc.Got, pc.Want[0]))
+			}
+			continue
+		}
 		if sc.Steps[pc.Step].Op == "damaged" {
 			if c16 {
 				res.addViolation("C16", "position_lost", fmt.Sprintf("after damaged line %q engine holds %q, acceptable %v", pc.Line, pc.Got, pc.Want))
